@@ -48,6 +48,7 @@ func ledgerScanC04(r *simrt.Run, n *simnode.Node, stage string) (receives int, c
 	}
 	for h, rs := range received {
 		if len(rs) > 1 {
+			_ = fmt.Sprint
 			r.Fail("received-twice", "same-send", "%s: node %s: send %v is received %d times: %v", stage, n.Name, h, len(rs), rs)
 		}
 		s := sends[h]
